@@ -820,7 +820,11 @@ impl<'a> LiveEvents<'a> {
 
             match raw {
                 Event::DocumentStart(_) => {
-                    // Found the start of the next document
+                    // Found the start of the next document. The budget does not see the skipped
+                    // events, but it must see this boundary to start the new document afresh.
+                    if let Some(budget) = self.budget.as_mut() {
+                        let _ = budget.observe(&raw);
+                    }
                     self.reset_document_state();
                     self.produced_any_in_doc = false;
                     return true;
